@@ -582,6 +582,40 @@ func Universe(tier string) []*Decl {
 			}
 		}
 	}
+	// Block F5: the same parallel-edge toggles at the first root of n=5 shapes with at least two roots
+	// (so that a second thread exists), roots Async. quick: two toggles; thorough: all four, all positions.
+	for e := uint(0); e < 1<<numEdges(5); e++ {
+		if !allReachable(5, e) || roots(5, e) < 2 || maxInDegree(5, e) > 3 {
+			continue
+		}
+		var rootMask uint
+		for k := 0; k < 5; k++ {
+			isRoot := true
+			for j := 0; j < k; j++ {
+				if e&(1<<edgeBit(j, k)) != 0 {
+					isRoot = false
+				}
+			}
+			if isRoot {
+				rootMask |= 1 << k
+			}
+		}
+		b := Base(5, e, rootMask, 0)
+		for _, v := range Variants {
+			if !multiEdge[v.Name] {
+				continue
+			}
+			if !thorough && v.Name != "multi-both" && v.Name != "dup-param" {
+				continue
+			}
+			for p := range b.Provs {
+				if !thorough && p != 0 {
+					continue
+				}
+				add(v.Apply(b, p), fmt.Sprintf("%s@%d", v.Name, p))
+			}
+		}
+	}
 	// Block G: several injectors per file / a package-level identifier called ctx: the context
 	// parameter of the injector under test is then named ctx0. Applied to context-taking providers
 	// in concurrent shapes.
